@@ -14,7 +14,7 @@ A_CompileError = asn1tools.CompileError
 A_ParseError = asn1tools.ParseError
 
 
-FLOOR_TYPES = ('Dv', 'Dw', 'Use1', 'CO')
+FLOOR_TYPES = ('Dv', 'Dw', 'Use1', 'CO', 'UdA', 'UdB', 'Dc')
 
 
 @st.composite
